@@ -219,6 +219,18 @@ var GposSimple = []Simple{
 			Adjust: [][]*gtab.PairAdjust{row(1, 2, 3, 4), row(5, 6, 7, 8), row(9, 10, 11, 12), row(13, 14, 15, 16)},
 		}}
 	}},
+	{"GPOS2.2 classes, a trailing column and row for classes without a glyph", 2, func() []gtab.Subtable {
+		return []gtab.Subtable{&gtab.Gpos2_2{
+			Cov:    coverage.Set{GA: true, GB: true},
+			Class1: classdef.Table{GB: 1},
+			Class2: classdef.Table{GA: 1, GL: 1},
+			Adjust: [][]*gtab.PairAdjust{
+				{{First: &gtab.GposValueRecord{}}, {First: &gtab.GposValueRecord{XAdvance: -11}}, {First: &gtab.GposValueRecord{XAdvance: 5}}},
+				{{First: &gtab.GposValueRecord{XAdvance: 7}}, {First: &gtab.GposValueRecord{XAdvance: -30}}, {First: &gtab.GposValueRecord{XAdvance: 6}}},
+				{{First: &gtab.GposValueRecord{XAdvance: 1}}, {First: &gtab.GposValueRecord{XAdvance: 2}}, {First: &gtab.GposValueRecord{XAdvance: 3}}},
+			},
+		}}
+	}},
 	{"GPOS2.2 classes, class pairs without any adjustment", 2, func() []gtab.Subtable {
 		return []gtab.Subtable{&gtab.Gpos2_2{
 			Cov:    coverage.Set{GA: true, GB: true},
